@@ -35,26 +35,49 @@ LEVEL_NOTE = "Trusts np.convolve and the bank's get_impulse_response values (C07
 
 class SiMonitor:
     def __init__(self, rec):
+        import weakref
+
         self.rec = rec
         self.case = None
+        self._started_before = False
+        self._in_full = {}  # id(computer) -> depth of compute_full calls in progress
+        self._client_started = weakref.WeakKeyDictionary()  # utterances the *client* opened with compute_chunk (a model, not the object's flag)
 
     def attach(self):
         from pydrobert.speech import compute as C
 
         compmon.attach()
         monitor.attach(C.ShortIntegrationFrameComputer, "compute_full", pre=self.pre, post=self.post)
+        monitor.attach(C.ShortIntegrationFrameComputer, "compute_chunk", post=self.post_chunk)
+        monitor.attach(C.ShortIntegrationFrameComputer, "finalize", post=self.post_finalize)
+
+    def post_chunk(self, c):
+        if not self._in_full.get(id(c.self)) and c.exc is None:
+            self._client_started[c.self] = True
+
+    def post_finalize(self, c):
+        if not self._in_full.get(id(c.self)):
+            self._client_started[c.self] = False
 
     def v(self, what, **kw):
         self.rec.violation(dict(what=what, case=self.case, **kw))
 
     def pre(self, c):
         x = c.args[0] if c.args else c.kwargs.get("signal")
+        # was an utterance in progress, by the calls the client made (not by what the object says of itself)?
+        self._started_before = bool(self._client_started.get(c.self, False))
+        self._in_full[id(c.self)] = self._in_full.get(id(c.self), 0) + 1
         return np.array(x, copy=True)
 
     def post(self, c):
         from pydrobert.speech import config
 
         comp, x = c.self, c.state
+        k = self._in_full.get(id(comp), 0) - 1
+        if k > 0:
+            self._in_full[id(comp)] = k
+        else:
+            self._in_full.pop(id(comp), None)
         inf = compmon.info(comp)
         if inf is None or inf["args"] is None or x is None:
             self.rec.count("si_unknown_construction")
@@ -83,7 +106,8 @@ class SiMonitor:
         if len(inf["ir_widths"]) != 1:
             self.rec.count("si_width_unobserved")
             return
-        if comp.started and isinstance(c.exc, ValueError):
+        if self._started_before and isinstance(c.exc, ValueError):
+            # (an utterance really was in progress before the call: the documented refusal)
             self.rec.count("si_rejected_mid_utterance")
             return
         width = inf["ir_widths"][0]
@@ -209,6 +233,13 @@ def _run_case(case, rec, mon=None):
             x = (1e4 * np.sin(0.03 * t + 0.5) + 1e-2 * rng.standard_normal(int(N))).astype(np.float32)
             rec.count("float32_signals_with_high_dynamic_range")
         x.setflags(write=False)
+        if j % 4 == 1:
+            # a signal of an integer type is refused (ValueError) and a refused call changes nothing
+            try:
+                comp.compute_full(np.arange(7, dtype=np.int16))
+                rec.count("integer_signals_accepted")
+            except ValueError:
+                rec.count("integer_signals_refused")
         try:
             if j % 5 == 4:
                 with monitor.strict_settings():  # settings a user may choose: FP division by zero raises, UserWarnings are errors
